@@ -123,6 +123,22 @@ func Search(fn *ssa.Function, from ssa.Instruction, edges EdgeFilter, stop, targ
 	return nil, nil
 }
 
+// SearchBlock is Search starting AT the first instruction of block b
+// (inclusive), not after it.
+func SearchBlock(fn *ssa.Function, b *ssa.BasicBlock, edges EdgeFilter, stop, target func(ssa.Instruction) bool) (ssa.Instruction, []*ssa.BasicBlock) {
+	if len(b.Instrs) == 0 {
+		return nil, nil
+	}
+	first := b.Instrs[0]
+	if target != nil && target(first) {
+		return first, []*ssa.BasicBlock{b}
+	}
+	if stop != nil && stop(first) {
+		return nil, nil
+	}
+	return Search(fn, first, edges, stop, target)
+}
+
 // IsReturn matches return instructions.
 func IsReturn(in ssa.Instruction) bool { _, ok := in.(*ssa.Return); return ok }
 
